@@ -50,21 +50,21 @@ Lemma deploy_one_spec : forall x decr w k,
   find_wl w (w_id x) = None -> find_cont w (w_id x) = None ->
   exists w' k' r, crunk (deploy_one x decr) w k = (w', k', r) /\
   (r = None -> core_eq w' w (wls w ++ [x]) (conts w ++ [mkCont (w_id x) CRunning])) /\
-  (r <> None -> core_eq w' w (wls w) (conts w)).
+  (r <> None -> core_eq w' w (wls w) (conts w) /\ k' = None).
 Proof.
   intros x decr w k Hx Hc. unfold find_wl in Hx. unfold find_cont in Hc.
   unfold deploy_one, txn_s, ign, skip, doc, call1, crunk. norm.
   assert (Hsame : core_eq w w (wls w) (conts w)) by (repeat split).
   pose proof (find_wl_none_notin _ _ Hx) as Hnotin.
   Ltac fin_fail Hx Hc Hnotin :=
-    do 3 eexists; split; [reflexivity|]; split; [discriminate|]; intros _; look;
+    do 3 eexists; split; [reflexivity|]; split; [discriminate|]; intros _; split; [|reflexivity]; look;
     rewrite ?del_cont_app_new by exact Hc; rewrite ?del_wl_app_new by exact Hx;
     rewrite ?(del_wl_notin _ _ Hnotin); repeat split.
   Ltac fin_ok := do 3 eexists; split; [reflexivity|]; split; [|congruence]; intros _; look; repeat split.
   (* the rollback: remove the record and the container *)
   Ltac rb Hc := cbn [exec]; look; norm; cbn [exec]; look; rewrite ?find_cont_app_new by exact Hc; rewrite ?andb_false_r; norm.
   kcase k.
-  - do 3 eexists. split; [reflexivity|]. split; [discriminate|]. intros _. exact Hsame.
+  - do 3 eexists. split; [reflexivity|]. split; [discriminate|]. intros _. split; [exact Hsame|reflexivity].
   - cbn [exec]. look. norm.
     ncase k.
     + (* WAL log fails: the created container is removed *)
@@ -134,6 +134,15 @@ Proof.
   - destruct (wid_eqb (c_id y) id); auto.
 Qed.
 
+(* once the fault has fired (or there is none) the budget stays empty *)
+Lemma crunk_none_stays : forall A (p : cprog A) w, snd (fst (crunk p w None)) = None.
+Proof.
+  unfold crunk. induction p as [a|c q IH]; intros w; simpl; [reflexivity|].
+  destruct (exec w c) as [w' r]. apply IH.
+Qed.
+Lemma crunk_none_k : forall A (p : cprog A) w w' k' a, crunk p w None = (w', k', a) -> k' = None.
+Proof. intros A p w w' k' a H. pose proof (crunk_none_stays A p w) as E. rewrite H in E. exact E. Qed.
+
 (* the successful instances, in order: those indices of idxs that are not in the failed list *)
 Definition succ_of (idxs failed : list nat) : list nat := filter (fun i => negb (existsb (Nat.eqb i) failed)) idxs.
 
@@ -153,12 +162,13 @@ Lemma deploy_loop_spec : forall opi pod n r idxs w k,
   NoDup idxs -> (forall i, In i idxs -> fresh w opi n i) ->
   exists w' k' failed ms, crunk (deploy_loop opi pod n r idxs) w k = (w', k', (failed, ms)) /\
     incl failed idxs /\ failed = filter (fun i => existsb (Nat.eqb i) failed) idxs /\
+    (failed <> [] -> k' = None) /\
     ms = map (fun i => if existsb (Nat.eqb i) failed then MCreateFail n else MCreateOk (mkWid opi n i) r) idxs /\
     core3 w' w (wls w ++ map (inst opi pod n r) (succ_of idxs failed))
                (conts w ++ map (instc opi n) (succ_of idxs failed)).
 Proof.
   intros opi pod n r idxs. induction idxs as [|i rest IH]; intros w k Hnd Hfresh.
-  - unfold crunk. simpl. do 4 eexists. split; [reflexivity|]. split; [intros ? []|]. split; [reflexivity|]. split; [reflexivity|].
+  - unfold crunk. simpl. do 4 eexists. split; [reflexivity|]. split; [intros ? []|]. split; [reflexivity|]. split; [congruence|]. split; [reflexivity|].
     simpl. rewrite !app_nil_r. repeat split.
   - inversion Hnd as [|? ? Hni Hnd']; subst.
     cbn [deploy_loop]. rewrite crunk_bind.
@@ -173,11 +183,11 @@ Proof.
       destruct (Hfresh j (or_intror Hj)) as [Hxj Hcj]. unfold fresh, find_wl, find_cont in *.
       destruct Hs as [_ [_ [_ [_ [_ [Hw2 Hc2]]]]]]. rewrite Hw2, Hc2.
       destruct e as [err|].
-      - destruct (Hfail ltac:(discriminate)) as [_ [_ [_ [_ [_ [_ [Hw1 Hc1]]]]]]]. rewrite Hw1, Hc1. auto.
+      - destruct (Hfail ltac:(discriminate)) as [[_ [_ [_ [_ [_ [_ [Hw1 Hc1]]]]]]] _]. rewrite Hw1, Hc1. auto.
       - destruct (Hok eq_refl) as [_ [_ [_ [_ [_ [_ [Hw1 Hc1]]]]]]]. rewrite Hw1, Hc1.
         rewrite find_wl_app_other by (apply wid_neq; auto).
         rewrite find_cont_app_other by (apply wid_neq; auto). auto. }
-    destruct (IH w2 k2 Hnd' Hfresh2) as [w3 [k3 [failed [ms [H3 [Hincl [Hsub [Hms Hcore]]]]]]]].
+    destruct (IH w2 k2 Hnd' Hfresh2) as [w3 [k3 [failed [ms [H3 [Hincl [Hsub [Hkn [Hms Hcore]]]]]]]]].
     rewrite H3. unfold crunk. cbn [runk].
     assert (Hnotin : existsb (Nat.eqb i) failed = false).
     { destruct (existsb (Nat.eqb i) failed) eqn:E; auto. apply existsb_exists in E. destruct E as [j [Hj E]].
@@ -188,12 +198,14 @@ Proof.
     destruct Hcore as [Hp3 [Hn3 [Hpl3 [Hst3 [Hsc3 [Hw3 Hc3]]]]]].
     destruct e as [err|]; cbn [is_ok fst snd].
     + (* this instance failed *)
-      destruct (Hfail ltac:(discriminate)) as [Hp1 [Hn1 [Hpl1 [_ [Hst1 [Hsc1 [Hw1 Hc1]]]]]]].
+      destruct (Hfail ltac:(discriminate)) as [[Hp1 [Hn1 [Hpl1 [_ [Hst1 [Hsc1 [Hw1 Hc1]]]]]]] Hk1].
       exists w3, k3, (i :: failed), (MCreateFail n :: ms). split; [reflexivity|].
       split; [intros j [<-|Hj]; [left; reflexivity|right; apply Hincl; exact Hj]|].
       split.
       { cbn [filter existsb]. rewrite Nat.eqb_refl. cbn [orb]. f_equal. rewrite Hsub at 1. apply filter_ext_in. intros j Hj.
         assert (Nat.eqb j i = false) as -> by (apply Nat.eqb_neq; intro; subst; auto). reflexivity. }
+      split.
+      { intros _. subst k1. apply crunk_none_k in H2. subst k2. apply crunk_none_k in H3. exact H3. }
       split.
       * cbn [map existsb]. rewrite Nat.eqb_refl. cbn [orb]. f_equal. rewrite Hms. apply map_ext_in. intros j Hj.
         assert (Nat.eqb j i = false) as -> by (apply Nat.eqb_neq; intro; subst; auto). reflexivity.
@@ -206,6 +218,7 @@ Proof.
       split; [intros j Hj; right; apply Hincl; exact Hj|].
       split.
       { cbn [filter]. rewrite Hnotin. exact Hsub. }
+      split; [exact Hkn|].
       split.
       * cbn [map]. rewrite Hnotin. f_equal. exact Hms.
       * rewrite succ_of_ok_head by exact Hnotin. cbn [map].
